@@ -91,6 +91,7 @@ type Conn struct {
 	ord      int
 	Tag      string
 	dialSync *int64
+	linger0  bool
 }
 
 type DialRec struct{ From, Raw, Resolved string }
@@ -678,6 +679,9 @@ func (k *Kernel) resetBothLocked(c *Conn) {
 	}
 }
 
+// DebugCloseStack, if set, is called on every close (debugging aid).
+var DebugCloseStack func(id int)
+
 //go:norace
 func (c *Conn) closeLocked() {
 	k := c.k
@@ -686,6 +690,28 @@ func (c *Conn) closeLocked() {
 	}
 	c.closed = true
 	k.logLocked("CL", int64(c.id), 0, "")
+	if DebugCloseStack != nil {
+		DebugCloseStack(c.id)
+	}
+	if !c.wclosed && !c.reset && c.linger0 {
+		// abortive close: undelivered data is dropped, the peer is reset
+		c.wclosed = true
+		k.countLocked("net.close_linger0_rst")
+		out := c.out
+		n := 0
+		for i := 0; i < len(out.queue); i++ {
+			ch := out.queue[i]
+			if len(ch.data) > 0 && !ch.fin && !ch.rst {
+				out.bytes -= len(ch.data)
+				continue
+			}
+			out.queue[n] = ch
+			n++
+		}
+		out.queue = out.queue[:n]
+		out.wcond.Broadcast()
+		k.enqueueLocked(c.out, chunk{rst: true})
+	}
 	if !c.wclosed && !c.reset {
 		c.wclosed = true
 		if c.in.recvN > 0 {
@@ -742,6 +768,29 @@ func (c *Conn) CloseWrite() error {
 	k.leave()
 	return nil
 }
+
+// SetLinger with sec == 0 makes Close abortive, as for a TCP socket: whatever
+// has been written but not yet delivered to the peer is discarded and the peer
+// is reset. Other values keep the default (close in the background, data first).
+//
+//go:norace
+func (c *Conn) SetLinger(sec int) error {
+	k := c.k
+	k.enter()
+	c.linger0 = sec == 0
+	k.leave()
+	return nil
+}
+
+// The remaining TCP-specific knobs have no effect on the model.
+func (c *Conn) SetNoDelay(bool) error                  { return nil }
+func (c *Conn) SetKeepAlive(bool) error                { return nil }
+func (c *Conn) SetKeepAlivePeriod(time.Duration) error { return nil }
+func (c *Conn) SetReadBuffer(int) error                { return nil }
+func (c *Conn) SetWriteBuffer(int) error               { return nil }
+
+// CloseRead discards further inbound data (no effect on the peer).
+func (c *Conn) CloseRead() error { return nil }
 
 // Abort resets the connection as seen from this endpoint (RST to the peer).
 //
